@@ -37,25 +37,39 @@ class NodeClf(BaseEstimator):
         if not hasattr(self, "id_"):
             self.id_ = NodeClf.count
             NodeClf.count += 1
-        NodeClf.fits.append((self, [int(r) for r in X[:, 0]], [int(v) for v in y], sample_weight))
+        NodeClf.fits.append((self, [_rid(r) for r in X[:, 0]], [int(v) for v in y], sample_weight))
         return self
 
     def p(self, row):
-        key = (self.id_, int(row))
+        """one probability per (node instance, EXACT feature value): a value changed by a cast is another row"""
+        key = (self.id_, repr(float(row)))
         if key not in NodeClf.table:
             C = NodeClf.C
+            name = f"p_{self.id_}_{_rid(row)}" if float(row) == float(numpy.float64(_rid(row)) + OFFSET) else f"p_{self.id_}_x{len(NodeClf.table)}"
             if C.symbolic:
-                v = C.real(f"p_{self.id_}_{int(row)}")
+                v = C.real(name)
                 C.assume(v >= 0)
                 C.assume(v <= 1)
+            elif name in C.inputs:
+                v = float(C.inputs[name])
             else:
-                v = float(C.inputs.get(f"p_{self.id_}_{int(row)}", 0.25 + 0.5 * ((self.id_ + int(row)) % 2)))
+                # a value the symbolic run never saw as such (e.g. after a lossy cast): a classifier may answer
+                # anything there; answer the other side of the nearest known row, as an adversarial classifier would
+                near = [(abs(float(k[1]) - float(row)), val) for k, val in NodeClf.table.items() if k[0] == self.id_]
+                v = (1.0 - min(near)[1]) if near else 0.25 + 0.5 * ((self.id_ + _rid(row)) % 2)
             NodeClf.table[key] = v
         return NodeClf.table[key]
 
     def predict_proba(self, X):
         rows = [[1 - self.p(r), self.p(r)] for r in X[:, 0]]
         return sx.sarr(rows) if NodeClf.C.symbolic else numpy.array(rows, dtype=float).reshape(-1, 2)
+
+
+OFFSET = 0.1  # row i has feature value i + 0.1: not exactly representable in float32
+
+
+def _rid(v):
+    return int(round(float(v) - OFFSET))
 
 
 def nodes_of(t):
@@ -82,7 +96,7 @@ def scenario_for(cfg):
         ys = [C.choice(f"y{i}", 2) for i in range(n)]
         C.assume(len(set(ys)) == 2)
         y = numpy.array([lab[v] for v in ys])
-        X = numpy.arange(n, dtype=float).reshape(-1, 1)
+        X = numpy.arange(n, dtype=float).reshape(-1, 1) + OFFSET
         est = m.DecisionTreeLogisticRegression(estimator=NodeClf(), max_depth=cfg["max_depth"], min_samples_leaf=cfg["min_samples_leaf"], min_samples_split=cfg["min_samples_split"], fit_improve_algo=cfg["algo"])
         r = est.fit(X, y)
         C.true(r is est, "fit-returns-self")
@@ -104,7 +118,7 @@ def scenario_for(cfg):
             C.true(rec is not None and rec[1] == rows, "node-trained-on-exactly-the-rows-routed-to-it", detail=(nd.index, None if rec is None else rec[1], rows))
             if rec is not None:
                 C.true(rec[2] == [1 if y[i] == classes[1] else 0 for i in rows], "node-trained-on-the-binary-target")
-            up = [i for i in rows if bool(nd.estimator.p(i) > nd.threshold)]
+            up = [i for i in rows if bool(nd.estimator.p(i + OFFSET) > nd.threshold)]
             down = [i for i in rows if i not in up]
             if nd.above is not None:
                 check_children(nd.above, up)
@@ -113,7 +127,7 @@ def scenario_for(cfg):
 
         check_children(est.tree_, list(range(n)))
         # predictions on the training rows and on fresh rows
-        Xq = numpy.arange(n + nq, dtype=float).reshape(-1, 1)
+        Xq = numpy.arange(n + nq, dtype=float).reshape(-1, 1) + OFFSET
         proba = est.predict_proba(Xq)
         pred = est.predict(Xq)
         path = est.decision_path(Xq)
@@ -123,13 +137,13 @@ def scenario_for(cfg):
             nd = est.tree_
             want_path = [nd.index]
             while True:
-                p = nd.estimator.p(i)
+                p = nd.estimator.p(i + OFFSET)
                 child = nd.above if bool(p > nd.threshold) else nd.below
                 if child is None:
                     break
                 nd = child
                 want_path.append(nd.index)
-            p = nd.estimator.p(i)
+            p = nd.estimator.p(i + OFFSET)
             C.eq(proba[i, 1], p, "predict_proba=terminal-node's-probability", detail=i)
             C.eq(proba[i, 0] + proba[i, 1], 1, "probabilities-sum-to-one")
             C.true(pred[i] == (classes[1] if bool(p >= 0.5) else classes[0]), "predict=classes_[p1>=0.5]", detail=(i, pred[i]))
@@ -162,14 +176,17 @@ def configs(tier):
                     for algo in ("auto", "none"):
                         if tier == "quick" and (labels, algo) not in ((0, "auto"), (1, "none"), (2, "auto")):
                             continue
-                        out.append(dict(n=3 if tier == "quick" else 4, query=1, labels=labels, max_depth=max_depth, min_samples_leaf=msl, min_samples_split=mss, algo=algo))
+                        out.append(dict(n=3, query=1, labels=labels, max_depth=max_depth, min_samples_leaf=msl, min_samples_split=mss, algo=algo))
+                        if tier != "quick" and max_depth == 2 and msl == 1 and mss == 2 and labels == 0 and algo == "auto":
+                            # 4 rows: every split of 4 rows at up to 3 nodes (the path count grows as 2^(rows x nodes))
+                            out.append(dict(n=4, query=1, labels=labels, max_depth=max_depth, min_samples_leaf=msl, min_samples_split=mss, algo=algo))
     return out
 
 
 def run(ctx, rep):
     rep.add_functions("mlmodel.decision_tree_logreg", ["DecisionTreeLogisticRegression.fit", "DecisionTreeLogisticRegression._fit_parallel", "DecisionTreeLogisticRegression.predict", "DecisionTreeLogisticRegression.predict_proba", "DecisionTreeLogisticRegression.decision_path", "DecisionTreeLogisticRegression.get_leaves_index", "DecisionTreeLogisticRegression.tree_depth_", "_DecisionTreeLogisticRegressionNode.fit", "_DecisionTreeLogisticRegressionNode.fit_improve", "_DecisionTreeLogisticRegressionNode.predict", "_DecisionTreeLogisticRegressionNode.predict_proba", "_DecisionTreeLogisticRegressionNode.decision_path", "_DecisionTreeLogisticRegressionNode.enumerate_leaves_index", "_DecisionTreeLogisticRegressionNode.tree_depth_"])
     cfgs = configs(ctx.tier)
-    rep.bounds = dict(train_rows=cfgs[0]["n"], query_rows="train rows + 1 fresh row", max_depth=sorted(set(c["max_depth"] for c in cfgs)), min_samples_leaf=sorted(set(c["min_samples_leaf"] for c in cfgs)), min_samples_split=[2, 3], labels=[list(l) for l in LABELS], node_probabilities="symbolic in [0,1] per (node, row); every side assignment explored")
+    rep.bounds = dict(train_rows=sorted(set(c["n"] for c in cfgs)), query_rows="train rows + 1 fresh row", max_depth=sorted(set(c["max_depth"] for c in cfgs)), min_samples_leaf=sorted(set(c["min_samples_leaf"] for c in cfgs)), min_samples_split=[2, 3], labels=[list(l) for l in LABELS], node_probabilities="symbolic in [0,1] per (node, row); every side assignment explored")
     rep.assumptions = [
         "node classifier = clonable stub (not a LinearClassifierMixin, so fit_improve returns its probabilities unchanged) with one symbolic probability per (node instance, row)",
         "rows are identified by a concrete id column; labels are concrete pairs in any order",
